@@ -69,6 +69,8 @@ type JobResult struct {
 	TwinViolated int
 	Truncated    bool
 	MaxSteps     int
+	NonTrivial   int              // paths on which at least one assertion or reach marker was evaluated
+	Samples      []map[string]any // a few completed paths written out (model + witnesses)
 }
 
 var overlayDir = "/verif/harness/overlay"
@@ -220,7 +222,23 @@ func (w *worker) runOnePath(job *Job, fn *ssa.Function, res *JobResult) {
 		}
 	}()
 	e.violatedOnPath = false
+	a0, r0 := sumCounts(e.asserts), sumCounts(e.reached)
+	defer func() {
+		if sumCounts(e.asserts) > a0 || sumCounts(e.reached) > r0 {
+			res.NonTrivial++
+		}
+	}()
 	e.callFunction(nil, fn, []Value{int64(job.N)}, nil)
+	if len(res.Samples) < 2 && len(e.pathVars) > 0 {
+		e.sync()
+		if m, st := e.solver.Model(nil, e.pathVars); st == "sat" {
+			w := map[string]string{}
+			for _, n := range e.witnessOrder {
+				w[n] = tail(e.evalString(e.witnesses[n], m), 300)
+			}
+			res.Samples = append(res.Samples, map[string]any{"job": job.Name, "model_of_this_path": m, "witnesses": w, "decisions": len(e.decisions), "ssa_steps": e.steps})
+		}
+	}
 	if e.violatedOnPath {
 		res.EndKinds["violated"]++
 	} else {
@@ -338,6 +356,10 @@ func RunJob(prog *ssa.Program, job *Job, nw int, twin bool, solverBin []string) 
 			agg.EndMsgs[k] += v
 		}
 		agg.Decisions += r.Decisions
+		agg.NonTrivial += r.NonTrivial
+		if len(agg.Samples) < 3 {
+			agg.Samples = append(agg.Samples, r.Samples...)
+		}
 		agg.Paths += w.e.Paths
 		agg.Steps += w.e.TotalSteps
 		agg.Folded += w.e.SimplifiedAway
@@ -420,4 +442,12 @@ func setupConfigRoots(dir string) error {
 	}
 	configRoots["core"] = core
 	return nil
+}
+
+func sumCounts(m map[string]int) int {
+	n := 0
+	for _, v := range m {
+		n += v
+	}
+	return n
 }
